@@ -112,6 +112,18 @@ CHECKS = {
         note="Trusted base: the interpreter/model in the harness; display(v) modelled as a direct sys.displayhook(v) call; single-threaded.",
         ref="2/C17",
     ),
+    "C18": dict(
+        technique="differential testing across configurations: a Hypothesis-generated battery of trees/documents/JSON-mode strings rendered by child interpreters started with different PYTHONHASHSEED values, each in its own order with repeats, digests compared case by case; Hypothesis pairs of head_content payloads for the name-injectivity law",
+        text="Seeded battery generation, then a finite sample of interpreter configurations (4 hash seeds quick / 32 thorough) x render orders; all must give identical digests. Plus generated-input search for the head_content name law. Exploration over configurations.",
+        note="Trusted base: sha256 digests, subprocess isolation; a nondeterminism that needs one specific hash seed can be missed (stated in evidence).",
+        ref="2/C18",
+    ),
+    "C19": dict(
+        technique="exhaustive enumeration + property-based differential: every function object of htmltools.tags / htmltools.svg and the 17 top-level shortcuts (name, default from the project's _INLINE_TAG_NAMES read with ast, explicit/non-bool _add_ws); Hypothesis argument lists applied to every function and compared with Tag(name, ...) by structural snapshot and rendering",
+        text="Complete enumeration of the function catalogue (exhaustive: true for that dimension) crossed with seeded generated argument lists; differential oracle against the Tag constructor. ",
+        note="Trusted base: ast.literal_eval of scripts/generate_tags.py in the tree under test, snapshot S.",
+        ref="2/C19",
+    ),
 }
 
 PENDING_REASON = "check not built yet in this revision (work in progress; see DESIGN.md section 2 for the planned generator and oracle)"
